@@ -288,7 +288,8 @@ Inductive status :=
 | SOK | SInvalidArgument | SNotFound | SPermissionDenied | SUnauthenticated
 | SUnknown         (* a plain Go error returned by Subscribe *)
 | SCanceled        (* the context's error, after the harness cancelled a stream *)
-| SOther.
+| SOther
+| SHang | SPanic.  (* observations only: Subscribe did not return / panicked *)
 
 Record request := RQ {
   r_has_sub : bool;                        (* the oneof holds a SubscriptionList *)
